@@ -434,6 +434,23 @@ func ruleC08_5(c *Ctx) {
 				ok = true
 			}
 		}
+		// on every live path with a non-nil received list, the written list is built from it (not from a fresh one)
+		prNN := c.An.Prune(sr, func(at *Atom) (bool, bool) {
+			if strings.HasPrefix(at.Key, "nil:") && at.Val == ssa.Value(refsParam) {
+				return false, true // refs == nil is false
+			}
+			return false, false
+		})
+		for _, a := range args {
+			if sl, isSl := a.Type().Underlying().(*types.Slice); !isSl || !isPtrToNamed(sl.Elem(), c.A.RefT) {
+				continue
+			}
+			for _, leaf := range c.An.liveLeaves(prNN, a) {
+				if !c.An.dependsOnValue(leaf, refsParam) {
+					ok = false
+				}
+			}
+		}
 		d := "the index written back derives from the index received (other variants are kept)"
 		if ok {
 			c.Pass("C08.5", "index-written-whole", d, c.P.InstrPos(in))
